@@ -903,14 +903,25 @@ Proof.
   cbn. unfold blk_mem. cbn. rewrite Z.eqb_refl. auto.
 Qed.
 
+Lemma vm_run_snoc : forall ops v0 v l o v' a, vm_run v0 ops = Ok (v, l) -> vm_step v o = Ok (v', a) ->
+  vm_run v0 (ops ++ [o]) = Ok (v', l ++ [a]).
+Proof.
+  unfold vm_run. induction ops as [|o0 r0 IH]; intros v0 v l o v' a E S; cbn [app vm_run_gen] in *.
+  - inversion E; subst. fold (vm_step v o). rewrite S. reflexivity.
+  - destruct (vm_step_gen true v0 o0) as [[v1 a1]|]; [|discriminate].
+    destruct (vm_run_gen true v1 r0) as [[v2 l2]|] eqn:E2; [|discriminate].
+    inversion E; subst. rewrite (IH _ _ _ _ _ _ E2 S). reflexivity.
+Qed.
+
 Lemma step_reachable : forall self v o v' a, reachable self v -> op_args_ok o = true ->
   (o = OEnd -> (2 <= length (abs_vm v))%nat) -> vm_step v o = Ok (v', a) -> reachable self v'.
 Proof.
   intros self v o v' a (ops & l & W & E) Ha Hend S.
-  exists (ops ++ [o]), (l ++ [a]).
   destruct (wf_history_split _ W) as [Wb Wa].
-  destruct (vm_run_refines self ops (init_vm self) empty_env (R_init self) Wb Wa) as (v0 & E0 & R0).
-  rewrite E in E0. inversion E0; subst v0. clear E0.
+  assert (R0 : R self v (fst (spec_run self empty_env ops))).
+  { destruct (vm_run_refines self ops (init_vm self) empty_env (R_init self) Wb Wa) as (v0 & E0 & R0).
+    rewrite E in E0. inversion E0; subst. assumption. }
+  exists (ops ++ [o]), (l ++ [a]).
   assert (Hlen : length (abs_vm v) = length (fst (spec_run self empty_env ops))) by (rewrite (R_abs _ _ _ R0); reflexivity).
   split.
   - unfold wf_history. apply andb_true_iff. split.
@@ -927,7 +938,7 @@ Proof.
           destruct (spec_run self e1 r0) as [e2 l2] eqn:E2. cbn [fst] in Hl.
           assert (IHr : balanced_from (length e1 - 1) (r0 ++ [o]) = true).
           { apply (IH _ e1); auto.
-            - destruct o0; lia.
+            - rewrite SL. destruct o0; try lia. specialize (Hl0 eq_refl). lia.
             - rewrite SL. destruct o0; try (subst d; exact Hb').
               + replace (S (length e) - 1)%nat with (S d) by lia. exact Hb'.
               + replace (pred (length e) - 1)%nat with (pred d) by lia. exact Hb'.
@@ -938,12 +949,7 @@ Proof.
             replace d with (pred (length e) - 1)%nat by lia. exact IHr. }
       apply (G ops 0%nat empty_env); auto. intros Ho. rewrite <- Hlen. auto.
     + rewrite forallb_app. cbn. rewrite Wa, Ha. reflexivity.
-  - clear - E S. unfold vm_run in *. revert E. generalize (init_vm self) as v0. revert l.
-    induction ops as [|o0 r0 IH]; intros l v0 E; cbn [app vm_run_gen] in *.
-    + inversion E; subst. fold (vm_step v o). rewrite S. reflexivity.
-    + destruct (vm_step_gen true v0 o0) as [[v1 a1]|]; [|discriminate].
-      destruct (vm_run_gen true v1 r0) as [[v2 l2]|] eqn:E2; [|discriminate].
-      inversion E; subst. rewrite (IH _ _ E2). reflexivity.
+  - eapply vm_run_snoc; eauto.
 Qed.
 
 (* after a successful declaration the name is in the innermost block, with the declared binding *)
@@ -1054,4 +1060,74 @@ Proof.
       cbn [balanced_from]. eapply IH2. reflexivity.
     + (* body = pre' ++ l *)
       eapply IH1. exact H1.
+Qed.
+
+(* a freshly declared name resolves to its own declaration and module: a stale externalRefs entry left
+   by a popped import at the same symbol index can never re-attach to it *)
+Lemma no_stale_external : forall self v n o v', reachable self v -> is_declare o n ->
+  vm_step v o = Ok (v', [E_OK; 0; -1]) ->
+  vm_step v' (OLookupM n) =
+  Ok (v', match o with
+          | ODeclare _ x | ODeclareConst _ x => [E_OK; x; self]
+          | ODeclareExt _ x m => [E_OK; x; m]
+          | _ => []
+          end).
+Proof.
+  intros self v n o v' HR Hd S.
+  assert (P : predef n = None).
+  { destruct (predef n) as [g|] eqn:P; [|reflexivity].
+    destruct (predefined_protected self v n g HR P) as [D _]. rewrite (D o Hd) in S. discriminate. }
+  destruct (declare_then self v n o v' HR Hd S) as (HR' & _ & F).
+  rewrite (lookup_answers self v' n HR' P), F.
+  destruct Hd as [(x & Hx & ->)|[(x & Hx & ->)|(x & m & Hx & Hm' & ->)]]; reflexivity.
+Qed.
+
+(* EndScope below the outermost level (never done by a Begin/defer-End discipline): everything is dropped *)
+Lemma unbalanced_end_clears : forall self v, reachable self v -> length (abs_vm v) = 1%nat ->
+  exists v', vm_step v OEnd = Ok (v', [0; 0; -1]) /\ vm_obs v' = [-1; 0].
+Proof.
+  intros self v HR Hlen. destruct (reachable_R _ _ HR) as (sp & -> & I & _).
+  cbn [abs_vm vm_scope] in Hlen. unfold abs in Hlen. rewrite abs_aux_length in Hlen.
+  pose proof (inv_depth sp I) as Hd. assert (D0 : currentDepth sp = 0) by lia.
+  destruct (pop_deeper_spec (locals sp) (values sp) (currentDepth sp) (localCount sp) (externalRefs sp))
+    as (c' & refs' & P1 & P2 & P3 & P4); try apply I.
+  unfold vm_step, vm_step_gen, vm_end_scope_gen, end_scope_gen. cbn [vm_scope]. rewrite P1.
+  eexists. split; [reflexivity|]. cbn [vm_obs vm_scope with_scope scope_obs currentDepth localCount].
+  pose proof (inv_desc sp I) as Hdesc. unfold live_of in Hdesc. rewrite D0 in *.
+  rewrite take_depth_all0 in P3 by assumption. cbn [snd] in P3.
+  assert (c' = 0)%nat.
+  { pose proof (live_length (locals sp) (values sp) refs' c') as L. rewrite P3 in L. cbn in L.
+    pose proof (inv_len_l sp I). pose proof (inv_len_v sp I). symmetry. apply L; lia. }
+  subst c'. reflexivity.
+Qed.
+
+Lemma step_commutes : forall self v o, reachable self v -> op_args_ok o = true ->
+  (o = OEnd -> (2 <= length (abs_vm v))%nat) ->
+  exists v', vm_step v o = Ok (v', snd (spec_step self (abs_vm v) o)) /\
+             abs_vm v' = fst (spec_step self (abs_vm v) o) /\ reachable self v'.
+Proof.
+  intros self v o HR Ha He.
+  destruct (vm_step_refines self v (abs_vm v) o (reachable_R _ _ HR) Ha He) as (v' & S & R').
+  exists v'. split; [exact S|]. split; [exact (R_abs _ _ _ R')|]. exact (step_reachable _ _ _ _ _ HR Ha He S).
+Qed.
+
+Lemma paired_histories_balanced : forall w pre post, paired w -> w = pre ++ post -> balanced_from 0 pre = true.
+Proof. intros w pre post H E. exact (paired_prefix_balanced w H pre post 0%nat E). Qed.
+
+Lemma declare_twice_is_error : forall self v n o o' v', reachable self v -> is_declare o n ->
+  is_declare o' n -> vm_step v o = Ok (v', [E_OK; 0; -1]) -> vm_step v' o' = Ok (v', [E_REDECLARED; 0; -1]).
+Proof.
+  intros self v n o o' v' HR Hd Hd' S. destruct (declare_then self v n o v' HR Hd S) as (HR' & M & _).
+  exact (redeclare_is_error self v' n o' HR' Hd' M).
+Qed.
+
+Lemma declared_const_is_const : forall self v n o v' y, reachable self v ->
+  ((exists x, x <> 0 /\ o = ODeclareConst n x) \/ (exists x m, x <> 0 /\ 0 <= m /\ o = ODeclareExt n x m)) ->
+  vm_step v o = Ok (v', [E_OK; 0; -1]) -> y <> 0 ->
+  vm_step v' (OAssign n y) = Ok (v', [E_ASSIGN_CONST; 0; -1]).
+Proof.
+  intros self v n o v' y HR Ho S Hy.
+  assert (Hd : is_declare o n) by (unfold is_declare; tauto).
+  destruct (declare_then self v n o v' HR Hd S) as (HR' & _ & F).
+  destruct Ho as [(x & Hx & ->)|(x & m & Hx & Hm & ->)]; eapply const_not_assignable; eauto.
 Qed.
